@@ -55,6 +55,9 @@ func main() {
 	for _, c := range exitPathFamily() {
 		add(c.name, c.p)
 	}
+	for _, c := range recursionFamily() {
+		add(c.name, c.p)
+	}
 	for _, nc := range diffprog.LoopExitFamily(true) {
 		add("nest:"+nc.Name, nc.Prog)
 	}
@@ -427,4 +430,60 @@ func swapTry(q *gen.Program, old, nw *gen.Try) {
 		fs = append(fs, &c)
 	}
 	q.Funcs = fs
+}
+
+// recursionFamily: a control (return / throw / continue) is pending in one activation of
+// a try statement while its finally or catch block re-enters the same function and runs
+// the same statements again — per-activation state kept on an AST node would be clobbered.
+func recursionFamily() []tcase {
+	var out []tcase
+	classes := []gen.ClassDecl{{Name: "E0", Extends: "Exception"}, {Name: "E1", Extends: "E0"}}
+	n := &gen.Var{Name: "n", T: gen.TInt}
+	str := func(s string) gen.Expr { return &gen.StrLit{S: s} }
+	cat := func(a, b gen.Expr) gen.Expr { return &gen.Bin{Op: ".", L: a, R: b, T: gen.TStr} }
+	odd := &gen.Bin{Op: "==", L: &gen.Bin{Op: "%", L: n, R: &gen.IntLit{V: 2}, T: gen.TInt}, R: &gen.IntLit{V: 1}, T: gen.TBool}
+	pos := &gen.Bin{Op: ">", L: n, R: &gen.IntLit{V: 0}, T: gen.TBool}
+	self := func() gen.Expr {
+		return &gen.Call{Fn: "w", Args: []gen.Expr{&gen.Bin{Op: "-", L: n, R: &gen.IntLit{V: 1}, T: gen.TInt}}, T: gen.TStr}
+	}
+	child := func(tag string) gen.Stmt {
+		return &gen.If{Cond: pos, Then: []gen.Stmt{&gen.Echo{Args: []gen.Expr{str(tag), n, str("->"), self(), diffprog.Nl()}}}}
+	}
+	mk := func(name string, body []gen.Stmt) {
+		body = append(body, &gen.Return{E: cat(str("end"), n)})
+		f := &gen.Func{Name: "w", Params: []gen.Param{{V: n}}, Ret: gen.TStr, Body: body, Recursive: true}
+		p := &gen.Program{Features: map[string]bool{"try": true, "finally": true, "recursion": true}, Classes: classes, Funcs: []*gen.Func{f}}
+		for _, d := range []int64{0, 1, 2, 3} {
+			p.Main = append(p.Main, &gen.Echo{Args: []gen.Expr{str("top:"), &gen.Call{Fn: "w", Args: []gen.Expr{&gen.IntLit{V: d}}, T: gen.TStr}, diffprog.Nl()}})
+		}
+		out = append(out, tcase{"recursion:" + name, p})
+	}
+	throwOdd := &gen.If{Cond: odd, Then: []gen.Stmt{&gen.Throw{Class: "E1", Msg: cat(str("odd"), n)}}}
+	// A: return pending from try or from catch; finally recurses
+	mk("return-pending/finally-recurses", []gen.Stmt{&gen.Try{
+		Body:       []gen.Stmt{throwOdd, &gen.Return{E: cat(str("try"), n)}},
+		Catches:    []gen.Catch{{Types: []string{"E0"}, Var: "e1", Body: []gen.Stmt{&gen.Return{E: cat(cat(str("catch"), n), &gen.GetMessage{V: "e1"})}}}},
+		HasFinally: true, Finally: []gen.Stmt{diffprog.EchoS("F", n), child("child")}}})
+	// B: catch body recurses before it returns (the caught object must survive the inner activations)
+	mk("catch-recurses", []gen.Stmt{&gen.Try{
+		Body:       []gen.Stmt{&gen.Throw{Class: "E1", Msg: cat(str("m"), n)}},
+		Catches:    []gen.Catch{{Types: []string{"E1"}, Var: "e1", Body: []gen.Stmt{child("in-catch"), &gen.Return{E: cat(str("caught:"), &gen.GetMessage{V: "e1"})}}}},
+		HasFinally: true, Finally: []gen.Stmt{diffprog.EchoS("F", n)}}})
+	// C: throw pending (no catch here); finally recurses; caller catches
+	mk("throw-pending/finally-recurses", []gen.Stmt{&gen.Try{
+		Body: []gen.Stmt{&gen.Try{
+			Body:       []gen.Stmt{throwOdd, diffprog.EchoS("even", n)},
+			HasFinally: true, Finally: []gen.Stmt{diffprog.EchoS("F", n), child("child")}}},
+		Catches: []gen.Catch{{Types: []string{"E0"}, Var: "e2", Body: []gen.Stmt{&gen.Return{E: cat(str("outer:"), &gen.GetMessage{V: "e2"})}}}}}})
+	// D: inside a loop: continue / return pending, finally recurses, finally overrides at depth 0
+	loopBody := []gen.Stmt{&gen.Try{
+		Body: []gen.Stmt{
+			&gen.If{Cond: &gen.Bin{Op: "==", L: &gen.Var{Name: "v1", T: gen.TInt}, R: &gen.IntLit{V: 1}, T: gen.TBool}, Then: []gen.Stmt{&gen.Return{E: cat(str("k1@"), n)}}},
+			&gen.Continue{Level: 1}},
+		HasFinally: true, Finally: []gen.Stmt{
+			&gen.If{Cond: &gen.Bin{Op: "&&", L: pos, R: &gen.Bin{Op: "==", L: &gen.Var{Name: "v1", T: gen.TInt}, R: &gen.IntLit{V: 1}, T: gen.TBool}, T: gen.TBool}, Then: []gen.Stmt{&gen.Echo{Args: []gen.Expr{str("nested:"), self(), diffprog.Nl()}}}},
+			&gen.If{Cond: &gen.Bin{Op: "&&", L: &gen.Bin{Op: "==", L: n, R: &gen.IntLit{V: 0}, T: gen.TBool}, R: &gen.Bin{Op: "==", L: &gen.Var{Name: "v1", T: gen.TInt}, R: &gen.IntLit{V: 1}, T: gen.TBool}, T: gen.TBool}, Then: []gen.Stmt{&gen.Return{E: str("override@0")}}},
+		}}}
+	mk("loop/continue-and-return-pending", []gen.Stmt{&gen.Foreach{Src: &gen.ArrLit{Elems: []gen.Expr{&gen.IntLit{V: 0}, &gen.IntLit{V: 1}}}, ValVar: "v1", Body: loopBody}})
+	return out
 }
